@@ -8,7 +8,9 @@ RULES = {"C04.R1", "C04.R2", "C04.R3", "C04.R4"}
 
 
 def extra(res, facts, entries, protos):
-    # prerequisite: the check exists and gates success (C03.R1 / R4 re-evaluated here)
+    # prerequisite: the check exists and gates success (C03.R1 / R4 re-evaluated here) - decided by C04.S1 when the semantic engine followed every path
+    if getattr(res, "sem_ok", False):
+        return
     for e in S.select(entries, "core", "consumer"):
         ok = S.is_authenticating(facts, e.body)
         res.oblige(ok)
@@ -22,8 +24,8 @@ def extra(res, facts, entries, protos):
 def run(tier):
     return _proto.run_rules(
         "C04", LEVEL, RULES,
-        {"C04.R0": 8, "C04.R1": 22, "C04.R2": 6, "C04.R3": 6, "C04.R4": 4},
+        {"C04.R1": 22, "C04.R2": 6, "C04.R3": 6, "C04.R4": 4},
         "provenance terms: the caller's whole 32-byte key (unsliced) is the key of HKDF-extract / keyed BLAKE2b / XChaCha20-Poly1305 in all 8 derivation functions and reaches them from the key parameter; "
         "the derived authentication key keys the tag that is compared; the verifier's key is built from the public_key parameter only (v3: the compressed supplied key is also first in the PAE); every Ok exit is gated by that check",
         ["HKDF-SHA384 / keyed BLAKE2b are PRFs of the whole key; signature schemes are unforgeable: another key fails"],
-        extra, "that a different key makes authentication fail (PRF / unforgeability: cryptographic)")
+        extra, "that a different key makes authentication fail (PRF / unforgeability: cryptographic)", sem_rules={'C04.S1': 8, 'C04.S2': 8, 'C04.S3': 4})
